@@ -400,7 +400,7 @@ def oracle(ck: Check, tier, deep):
     # abel.Transform centres with center_image and nothing else: Transform(origin, center_options).IM is center_image(IM, origin, **options)
     # for every option — odd_size off (even widths stay even), square, axes, crop — and the shape it promises (maintain_size) is kept
     from abel.tools.center import center_image as _ci
-    for _ in range(40 if not deep else 300):
+    for it_ in range(40 if not deep else 300):
         r, c = (int(v) for v in rng.integers(7, 16, size=2))
         X = rng.random((r, c))
         opts = dict(odd_size=bool(rng.integers(0, 2)), square=bool(rng.random() < 0.25), crop=["maintain_size", "valid_region", "maintain_data"][int(rng.integers(0, 3))],
@@ -408,7 +408,12 @@ def oracle(ck: Check, tier, deep):
         if rng.random() < 0.4:
             opts["axes"] = [0, 1, (0, 1)][int(rng.integers(0, 3))]
         o = [(int(rng.integers(2, r - 2)), int(rng.integers(2, c - 2))), (float(rng.uniform(2, r - 3)), float(rng.uniform(2, c - 3))), "com", "convolution"][int(rng.integers(0, 4))]
-        ck.count(("S.transform-options", opts["odd_size"], opts["square"], opts["crop"], c % 2, str(opts.get("axes"))), suite="S.frac")
+        if it_ % 3 == 1:
+            # … and with no center_options at all it is center_image with its defaults — in every call of a session, whatever origins
+            # (whole-pixel, fractional) the earlier calls had
+            opts = {}
+            o = [(int(rng.integers(2, r - 2)), int(rng.integers(2, c - 2))), (float(rng.uniform(2, r - 3)), float(rng.uniform(2, c - 3)))][(it_ // 3) % 2]
+        ck.count(("S.transform-options", opts.get("odd_size"), opts.get("square"), opts.get("crop"), c % 2, str(opts.get("axes"))), suite="S.frac")
         rep = dict(shape=[r, c], origin=o if isinstance(o, str) else list(o), options={k: (list(v) if isinstance(v, tuple) else v) for k, v in opts.items()})
         sig = dict(site="Transform", clause="centres-with-center_image")
         try:
@@ -418,12 +423,12 @@ def oracle(ck: Check, tier, deep):
         if ref.shape[1] % 2 == 0 or ref.shape[0] < 3 or ref.shape[1] < 5:
             # the quadrant methods need an odd width: whatever Transform does with an even one, it must not silently drop columns — IM is compared only
             try:
-                t = quiet_call(abel.Transform, X, method="hansenlaw", origin=o, center_options=opts)
+                t = quiet_call(abel.Transform, X, method="hansenlaw", origin=o, **(dict(center_options=opts) if opts else {}))
             except Exception:
                 continue
         else:
             try:
-                t = quiet_call(abel.Transform, X, method="hansenlaw", origin=o, center_options=opts)
+                t = quiet_call(abel.Transform, X, method="hansenlaw", origin=o, **(dict(center_options=opts) if opts else {}))
             except Exception as e:
                 ck.violation(dict(sig, clause="exception"), rep, f"{type(e).__name__}: {e}")
                 continue
